@@ -9,9 +9,12 @@ def sh(cmd, cwd=None, env=None):
     return p.returncode, (p.stdout + p.stderr).decode(errors='replace')
 
 def main():
-    prop, letter = sys.argv[1], sys.argv[2]
-    src = f'/tmp/mut-{prop}'
-    mid = f'{prop}-{letter}'
+    if sys.argv[1] == '--src':       # ingest_seeded.py --src DIR NAME PROP ID
+        src, letter, prop, mid = sys.argv[2], sys.argv[3], sys.argv[4], sys.argv[5]
+    else:
+        prop, letter = sys.argv[1], sys.argv[2]
+        src = f'/tmp/mut-{prop}'
+        mid = f'{prop}-{letter}'
     copy = f'/tmp/verif-ingest-{mid}'
     shutil.rmtree(copy, ignore_errors=True)
     sh(['rsync', '-a', '--exclude', '.git', '--exclude', 'htmlcov', '--exclude', 'test-output', '/repo/', copy + '/'])
